@@ -322,6 +322,77 @@ package keeper
 //@   ensures [C02] #c02-nothing-of-the-mint-stays: ok ==> bal(vm, aout.Denom) == old(bal(vm, aout.Denom))
 //@   ensures [C01] #c01-collateral-in-custody: ok ==> bal(vm, ain.Denom) == old(bal(vm, ain.Denom)) + msg.Amount
 
+
+// ---- MsgDepositStableMint (C02, C01): same statement as create, on an existing stable-mint vault; the vault record and the
+// published totals move with the collateral paid in and the amount minted.
+
+//@ func (k msgServer) MsgDepositStableMint
+//@   property C02, C01
+//@   let ep = k.asset.GetPairsVault(ctx, msg.ExtendedPairVaultId).0
+//@   let pr = k.asset.GetPair(ctx, ep.PairId).0
+//@   let ain = k.asset.GetAsset(ctx, pr.AssetIn).0
+//@   let aout = k.asset.GetAsset(ctx, pr.AssetOut).0
+//@   let out = k.GetAmountOfOtherToken(ctx, ain.Id, ONE, msg.Amount, aout.Id, ONE).1
+//@   let fee = trunc(decMul(dec(out), ep.DrawDownFee))
+//@   let vm = modaddr("vaultV1")
+//@   let cm = modaddr("collectorV1")
+//@   let u = addr(msg.From)
+//@   let sv0 = k.GetStableMintVault(ctx, msg.StableVaultId).0
+//@   requires #valid-msg: msg.Amount > 0 && (validaddr(msg.From) ==> u != vm && u != cm)
+//@   requires #config: ain.Denom != aout.Denom && ain.Decimals > 0 && aout.Decimals > 0 && ep.DrawDownFee >= 0 && ep.DrawDownFee <= ONE
+//@   requires #vault-keyed: k.GetStableMintVault(ctx, msg.StableVaultId).1 ==> sv0.Id == msg.StableVaultId
+//@   requires #fee-book: forall a, b :: ite(K("collector").GetNetFeeCollectedData(ctx, a, b).1, K("collector").GetNetFeeCollectedData(ctx, a, b).0.NetFeesCollected, 0) >= 0
+//@   letpost sv1 = k.GetStableMintVault(ctx, msg.StableVaultId).0
+//@   ensures [C02] #c02-mint-is-converted-amount: ok ==> supply(aout.Denom) == old(supply(aout.Denom)) + out
+//@   ensures [C02] #c02-user-gets-mint-minus-fee: ok ==> bal(u, aout.Denom) == old(bal(u, aout.Denom)) + out - fee
+//@   ensures [C02] #c02-nothing-of-the-mint-stays: ok ==> bal(vm, aout.Denom) == old(bal(vm, aout.Denom))
+//@   ensures [C02] #c02-principal-recorded: ok ==> sv1.AmountOut == sv0.AmountOut + out
+//@   ensures [C01] #c01-collateral-in-custody: ok ==> bal(vm, ain.Denom) == old(bal(vm, ain.Denom)) + msg.Amount && sv1.AmountIn == sv0.AmountIn + msg.Amount
+
+
+// ---- MsgWithdrawStableMint (C02, C01): the user pays debt coins; the draw-down fee part goes to the collector, the rest is
+// burned and retired from the recorded principal; the collateral released is the value-converted amount of what was burned,
+// never more than the vault records.
+
+//@ func (k msgServer) MsgWithdrawStableMint
+//@   property C02, C01
+//@   let ep = k.asset.GetPairsVault(ctx, msg.ExtendedPairVaultId).0
+//@   let pr = k.asset.GetPair(ctx, ep.PairId).0
+//@   let ain = k.asset.GetAsset(ctx, pr.AssetIn).0
+//@   let aout = k.asset.GetAsset(ctx, pr.AssetOut).0
+//@   let fee = trunc(decMul(dec(msg.Amount), ep.DrawDownFee))
+//@   let burned = ite(ep.DrawDownFee == 0, msg.Amount, msg.Amount - fee)
+//@   let released = ite(ep.DrawDownFee == 0, k.GetAmountOfOtherToken(ctx, aout.Id, ONE, msg.Amount, ain.Id, ONE).1, k.GetAmountOfOtherToken(ctx, aout.Id, ONE, msg.Amount - fee, ain.Id, ONE).1)
+//@   let vm = modaddr("vaultV1")
+//@   let cm = modaddr("collectorV1")
+//@   let u = addr(msg.From)
+//@   let sv0 = k.GetStableMintVault(ctx, msg.StableVaultId).0
+//@   requires #valid-msg: msg.Amount > 0 && (validaddr(msg.From) ==> u != vm && u != cm)
+//@   requires #config: ain.Denom != aout.Denom && ain.Decimals > 0 && aout.Decimals > 0 && ep.DrawDownFee >= 0 && ep.DrawDownFee < ONE
+//@   requires #vault-keyed: k.GetStableMintVault(ctx, msg.StableVaultId).1 ==> sv0.Id == msg.StableVaultId
+//@   requires #assets-keyed: (k.asset.GetAsset(ctx, pr.AssetIn).1 ==> ain.Id == pr.AssetIn) && (k.asset.GetAsset(ctx, pr.AssetOut).1 ==> aout.Id == pr.AssetOut)
+//@   requires #fee-book: forall a, b :: ite(K("collector").GetNetFeeCollectedData(ctx, a, b).1, K("collector").GetNetFeeCollectedData(ctx, a, b).0.NetFeesCollected, 0) >= 0
+//@   letpost sv1 = k.GetStableMintVault(ctx, msg.StableVaultId).0
+//@   ensures [C02] #c02-burn-is-principal-retired: ok ==> supply(aout.Denom) == old(supply(aout.Denom)) - burned && sv1.AmountOut == sv0.AmountOut - burned
+//@   ensures [C02] #c02-user-pays-all: ok ==> bal(u, aout.Denom) == old(bal(u, aout.Denom)) - msg.Amount
+//@   ensures [C02] #c02-fee-to-collector: ok ==> bal(cm, aout.Denom) == old(bal(cm, aout.Denom)) + fee && bal(vm, aout.Denom) == old(bal(vm, aout.Denom))
+//@   ensures [C01] #c01-collateral-released-from-custody: ok ==> bal(vm, ain.Denom) == old(bal(vm, ain.Denom)) - released
+//@   ensures [C01] #c01-collateral-released-is-recorded: ok ==> sv1.AmountIn == sv0.AmountIn - released
+//@   ensures [C01] #c01-collateral-released-to-user: ok ==> bal(u, ain.Denom) == old(bal(u, ain.Denom)) + released
+//@   ensures [C01] #c01-never-more-than-recorded: ok ==> sv1.AmountIn >= 0 || sv0.AmountIn < 0
+
+
+// Bookkeeping of stable-mint reward entries: touches only the reward-entry records, never a vault record or the published totals.
+
+//@ func (k Keeper) DeleteUserStableRewardEntries
+//@   property C01, C02
+//@   modular
+//@   modifies vault
+//@   loop 0 invariant #vaults-untouched: forall id :: k.GetStableMintVault(ctx, id) == old(k.GetStableMintVault(ctx, id))
+//@   loop 0 invariant #totals-untouched: forall a, e :: k.GetAppExtendedPairVaultMappingData(ctx, a, e) == old(k.GetAppExtendedPairVaultMappingData(ctx, a, e))
+//@   ensures #c01-stable-vaults-untouched: forall id :: k.GetStableMintVault(ctx, id) == old(k.GetStableMintVault(ctx, id))
+//@   ensures #c01-totals-untouched: forall a, e :: k.GetAppExtendedPairVaultMappingData(ctx, a, e) == old(k.GetAppExtendedPairVaultMappingData(ctx, a, e))
+
 //@ func (k msgServer) MsgDepositAndDraw
 //@   property C12, C14
 //@   let v0 = k.GetVault(ctx, msg.UserVaultId).0
